@@ -1155,6 +1155,10 @@ class DiameterHeader(object):
         """Load a byte stream which represents Diameter Headers and returns a 
         list of DiameterHeader objects.
         """
+        if len(stream) < 5:
+            raise DiameterHeaderError("invalid bytes stream. It is too short "\
+                                      "to hold a Diameter Header")
+
         version  = convert_to_1_byte(stream[0])
         length = stream[1:4]        
         flags = convert_to_1_byte(stream[4])
